@@ -1,5 +1,6 @@
 import RustCcModel.Proofs.CtlSimp
 import RustCcModel.Proofs.ActOnce
+import RustCcModel.Proofs.ActKeep
 /-! # C10 — cleaning actions run at most once, exactly once by the time the `Cleaner` is gone
 
 An action lives in exactly one slot of its map; both ways of running it (`Cleanable::clean`, the drop
@@ -50,5 +51,25 @@ theorem action_ran_is_gone (c : Cfg) (nH nW nK : Nat) (w : World) (log : List Ev
 /-- Stored actions always have distinct identifiers, all already handed out. -/
 theorem stored_actions_distinct (c : Cfg) (nH nW nK : Nat) (w : World) (log : List Event) (h : HistR c nH nW nK w log) : AOk w :=
   (histR_actOk c nH nW nK w log h 0).1
+
+/-! ## No action is lost (`Proofs/ActKeep.lean`) — every history, caught panics included -/
+
+/-- **No registered cleaning action is ever lost.** In every history of the machine — running and unwinding steps, any
+program, scripts and fault plan — an action whose identifier `register` has handed out has been run, or is still stored in a
+slot of its `Cleaner`'s map, where `clean()` and the map's drop glue find it: an action leaves its slot only in the very step
+that runs it, `register` never overwrites an occupied slot (the free list of the slot map only names empty slots), an
+allocation never lands on a stored action. With `action_at_most_once`: *ran exactly once, or still stored*. -/
+theorem action_never_lost (c : Cfg) (nH nW nK : Nat) (w : World) (log : List Event) (h : HistA c nH nW nK w log) (aid : Nat)
+    (hlt : aid < w.nextAid) : aid ∈ aEv log ∨ ∃ m i a, slotAt w m i = some a ∧ a.aid = aid :=
+  (histA_conserved c nH nW nK w log h).2.2 aid hlt
+
+/-- One step of the map's drop glue on an occupied slot runs exactly that slot's action (the event is in the log of the step)
+and moves on to the next slot — also while unwinding. -/
+theorem dropActions_runs_slot (c : Cfg) (w : World) (m : Id) (i : Nat) (a : Action) (unw : Bool)
+    (hi : i < (w.heap m).aslots.length) (ha : (w.heap m).aslots.getD i none = some a) :
+    aEv (stepFrame c w (.dropActions m i unw)).events = aEv w.events ++ [a.aid] ∧
+      .dropActions m (i + 1) unw ∈ (stepFrame c w (.dropActions m i unw)).stack := by
+  simp only [stepFrame, hi, if_true, ha]
+  split <;> simp [raiseLogged, raise, emit, push, upd] <;> (try split) <;> simp
 
 end RustCc.C10
